@@ -137,6 +137,19 @@ def ofSpine (T : ClassTable) : Pat → List Node
   | _ => []
 end
 
+/-- the item list of a sub-expression ends in `snil` -/
+def isSpine : Pat → Bool
+  | .snil => true
+  | .scons _ _ => true
+  | _ => false
+
+/-- every sub-expression is an item list - what the mappers build (`ofPat` reads a sub-expression through `ofSpine`) -/
+def spined : Pat → Bool
+  | .quant p _ _ => spined p
+  | .scons a r => spined a && spined r && isSpine r
+  | .alt a b => spined a && spined b
+  | _ => true
+
 -- `indexChars`: number the `Char` leaves from `next` on, left to right
 mutual
 def index (next : Nat) : Node → Node × Nat
@@ -166,11 +179,13 @@ structure Tree where
   root : Node
   posChar : List (Nat × Rune)
   follows : FollowMap
+  /-- `a.lastPos`: the last position handed out by `indexChars` - the position of the end marker -/
+  last : Nat
 
 /-- `ast.Parse` after the mappers: append the end marker, index, compute followpos. -/
 def build (T : ClassTable) (p : Pat) : Tree :=
-  let root := (index 1 (.concat [ofPat T p, .char endMarker 0])).1
-  { root := root, posChar := leaves root, follows := computeFollows [] root }
+  let r := index 1 (.concat [ofPat T p, .char endMarker 0])
+  { root := r.1, posChar := leaves r.1, follows := computeFollows [] r.1, last := r.2 - 1 }
 
 def insertNat (x : Nat) : List Nat → List Nat
   | [] => [x]
@@ -178,29 +193,83 @@ def insertNat (x : Nat) : List Nat → List Nat
 
 def sortDedup (xs : List Nat) : List Nat := xs.foldl (fun acc x => insertNat x acc) []
 
-/-- `ToDFA` without the final `Minimize`: returns (number of states, accepting states,
-    transitions grouped as (from, to, symbols)). States are position sets compared as sets. -/
-def toDFA (t : Tree) : Nat × List Nat × List (Nat × Nat × List Rune) := Id.run do
-  let symbols := sortDedup ((t.posChar.map (·.2)).filter (· ≠ endMarker))
-  let endPos := (t.posChar.filter (·.2 = endMarker)).map (·.1)
-  let mut states : Array Poses := #[t.root.firstPos]
-  let mut trans : List (Nat × Nat × List Rune) := []
-  let mut i := 0
-  while i < states.size do
-    let S := states[i]!
-    let mut row : List (Nat × List Rune) := []
-    for c in symbols do
-      let U := S.foldl (fun u p => if (t.posChar.find? (·.1 = p)).map (·.2) = some c then Poses.union u (t.follows.get p) else u) []
-      let mut j := states.size
-      for k in [0:states.size] do
-        if j = states.size && Poses.equal states[k]! U then j := k
-      if j = states.size then states := states.push U
-      row := match row.find? (·.1 = j) with
-        | some _ => row.map fun g => if g.1 = j then (g.1, g.2 ++ [c]) else g
-        | none => row ++ [(j, [c])]
-    trans := trans ++ row.map fun (j, cs) => (i, j, cs)
-    i := i + 1
-  let finals := (List.range states.size).filter fun k => endPos.any fun f => (states[k]!).contains f
-  return (states.size, finals, trans)
+/-! ### `ToDFA` without the final `Minimize` (which is the dependency's) -/
+
+/-- `a.posToChar[p]` -/
+def Tree.charAt (t : Tree) (p : Nat) : Option Rune := (t.posChar.find? (·.1 = p)).map (·.2)
+
+/-- `U`: the union of followpos(p) for all p in S that correspond to c -/
+def stepSet (t : Tree) (S : Poses) (c : Rune) : Poses :=
+  S.foldl (fun u p => if t.charAt p = some c then Poses.union u (t.follows.get p) else u) []
+
+/-- `Dstates.Contains(U)`: the index of the first state that is equal to U as a set -/
+def findState (states : List Poses) (U : Poses) : Option Nat :=
+  match states with
+  | [] => none
+  | S :: rest => if Poses.equal S U then some 0 else (findState rest U).map (· + 1)
+
+abbrev Trans := List (Nat × Rune × Nat)
+
+/-- one input symbol for the state `S` with number `i`: find or enqueue `U`, add the transition -/
+def addSym (t : Tree) (S : Poses) (i : Nat) (acc : List Poses × Trans) (c : Rune) : List Poses × Trans :=
+  let U := stepSet t S c
+  match findState acc.1 U with
+  | some j => (acc.1, acc.2 ++ [(i, c, j)])
+  | none => (acc.1 ++ [U], acc.2 ++ [(i, c, acc.1.length)])
+
+/-- the `for S, i := Dstates.Dequeue(); i >= 0; …` loop: the states are processed in the order of their numbers until
+    none is left; `none` if the fuel runs out first -/
+def explore (t : Tree) (symbols : List Rune) : Nat → Nat → List Poses → Trans → Option (List Poses × Trans)
+  | 0, _, _, _ => none
+  | fuel + 1, i, states, tr =>
+    match states[i]? with
+    | none => some (states, tr)
+    | some S =>
+      let r := symbols.foldl (addSym t S i) (states, tr)
+      explore t symbols fuel (i + 1) r.1 r.2
+
+/-- the input symbols: the characters carried by a position other than the end marker's
+    (the end marker is told apart by its position, not by its character) -/
+def symbolsOf (t : Tree) : List Rune := sortDedup ((t.posChar.filter (·.1 ≠ t.last)).map (·.2))
+
+/-- enough fuel for every set of positions to become a state -/
+def dfaFuel (t : Tree) : Nat := 2 ^ t.posChar.length + 1
+
+structure DFA where
+  states : List Poses
+  trans : Trans
+
+def toDFA? (t : Tree) : Option DFA :=
+  (explore t (symbolsOf t) (dfaFuel t) 0 [t.root.firstPos] []).map fun r => ⟨r.1, r.2⟩
+
+/-- the accepting states: those sets of positions that include the position of the end marker -/
+def DFA.finals (d : DFA) (t : Tree) : List Nat := (List.range d.states.length).filter fun k => (d.states.getD k []).contains t.last
+
+def lookup (tr : Trans) (i : Nat) (c : Rune) : Option Nat := (tr.find? fun e => e.1 = i ∧ e.2.1 = c).map (·.2.2)
+
+/-- the run of the automaton from state `i` -/
+def runD (tr : Trans) : Nat → List Rune → Option Nat
+  | i, [] => some i
+  | i, c :: w => match lookup tr i c with
+    | some j => runD tr j w
+    | none => none
+
+def DFA.accepts (d : DFA) (t : Tree) (w : List Rune) : Bool :=
+  match runD d.trans 0 w with
+  | some j => (d.states.getD j []).contains t.last
+  | none => false
+
+/-- rendering: transitions grouped as (from, to, symbols) -/
+def groupTrans (n : Nat) (tr : Trans) : List (Nat × Nat × List Rune) :=
+  (List.range n).flatMap fun i =>
+    let row := (tr.filter (·.1 = i)).foldl (fun (row : List (Nat × List Rune)) e =>
+      match row.find? (·.1 = e.2.2) with
+      | some _ => row.map fun g => if g.1 = e.2.2 then (g.1, g.2 ++ [e.2.1]) else g
+      | none => row ++ [(e.2.2, [e.2.1])]) []
+    row.map fun (j, cs) => (i, j, cs)
+
+/-- `ToDFA` without the final `Minimize`: (number of states, accepting states, transitions grouped as (from, to, symbols)) -/
+def toDFA (t : Tree) : Option (Nat × List Nat × List (Nat × Nat × List Rune)) :=
+  (toDFA? t).map fun d => (d.states.length, d.finals t, groupTrans d.states.length d.trans)
 
 end Emerge.Regex.Follow
